@@ -20,6 +20,7 @@ EXPLANATION = (
     "be dominated by a two-polarisation guard; otherwise it selects samples of a one-polarisation signal. C08.4: each disjunct of the "
     "single-step shortcut is gamma==0 or tests ==0 every parameter D_op depends on (alpha, beta_2, beta_3). C08.6: D_op is the NLSE's linear operator -alpha'/2 - j/2*beta2*W^2 - j/6*beta3*W^3 (shared with C07.3). C08.7: the returned field is the field the stepping loop ends with (not a cast copy stored into a buffer of the input's dtype). Not decided: convergence "
     "to the NLSE solution, finiteness.")
+EXPLANATION += (' Added after the audit wave: C08.8 the first adaptive step is bounded by the fibre length before it is used (a weak field in a lossy fibre otherwise steps past the end: negative remainder, exp(+alpha*h/2) overflow, NaN output; an all-zero field never returned).')
 TRUSTED = ["numpy.fft", "Karr's affine-relation domain as implemented in ocv/karr.py", "C07.3 (D_op form)"]
 
 
@@ -391,6 +392,42 @@ def rule_dop(ctx, fi, it, rule):
     return b2, dop_stmt
 
 
+def _at_most_length(v, length, depth=0):
+    """the value cannot exceed the fibre length: the length itself, min(.., length), or alternatives that all are"""
+    if not isinstance(v, Form) or depth > 5:
+        return False
+    if v == length:
+        return True
+    a = v.single_atom()
+    if a is None:
+        return False
+    if a[0] == "fn" and a[1] in ("min", "minimum") and any(isinstance(x, Form) and x == length for x in a[2]):
+        return True
+    if a[0] == "fn" and a[1] == "ifexp" and len(a[2]) == 3:
+        return _at_most_length(a[2][1], length, depth + 1) and _at_most_length(a[2][2], length, depth + 1)
+    if a[0] == "phi":
+        return all(_at_most_length(x, length, depth + 1) for x in a[2])
+    return False
+
+
+def rule_first_step(ctx, fi, it):
+    """C08.8: the step the stepping loop STARTS with is at most the fibre length.  The accounting `x_length = h; ... if x_length + h >
+    length: break; ...; h = length - x_length` keeps the distance covered below the length only if it starts below it: a weak signal
+    (phi_max/(gamma*P) > L - microwatts in a lossy fibre) makes the adaptive first step overshoot, the remainder is negative, and the
+    linear operator applied backwards over that distance (exp(+alpha*|h|/2)) overflows: every sample comes out NaN"""
+    length = S(fi.params[1])
+    hname = step_variable(fi, it)
+    loops = [n for n in fi.node.body if isinstance(n, ast.While)]
+    if hname is None or not loops or loops[0] not in it.loop_envs:
+        ctx.unknown("C08.8", fi, fi.node, "FIBER: first step", "step variable or stepping loop not identified")
+        return
+    pre = it.loop_envs[loops[0]][0]
+    h0 = pre.get(hname)
+    ctx.check("C08.8", _at_most_length(h0, length), fi, loops[0], f"FIBER: step at loop entry = {h0!r}"[:200], "at most the fibre length",
+              "the first step is the adaptive phi_max/(gamma*P_peak) with no upper limit: for a weak signal it exceeds the fibre length, the distance already covered then exceeds "
+              "the length, the final 'remainder' step is negative and the field is propagated backwards through the loss (overflow: non-finite output)")
+
+
 def run(ctx):
     pkg = ctx.pkg
     fi = pkg.func("devices.FIBER")
@@ -424,7 +461,9 @@ def run(ctx):
             ctx.unknown("C08.7", fi, fi.node, "FIBER: output field", "returned signal or final field not determined")
     else:
         ctx.unknown("C08.7", fi, fi.node, "FIBER: output field", "no propagation site / single return")
+    rule_first_step(ctx, fi, itn)
     check_late_binding(ctx, "C08.5", ["devices.FIBER"])
+    ctx.require_min("C08.8", 1)
     ctx.require_min("C08.1", 1)
     ctx.require_min("C08.2", 2)
     ctx.require_min("C08.3", 1)
